@@ -96,6 +96,8 @@ def run(tier, seed, replay=None):
     rep = Report("C04", tier, seed)
     rng = Rng(seed)
     proof_stage(rep, "C04")
+    # tie by translation (T5) for merge, zip, combine_latest: the observers' bodies parsed from /repo/src compute the machines
+    proof_stage(rep, "C04src", limit=400)
     if not build_stage(rep):
         return rep.finish()
     cases = load_replay_case(replay) if replay else make_cases(tier, rng) + ileave2.cases(tier, rng, kinds=("op2",))
